@@ -12,7 +12,7 @@ RULE = ('charsets latin1, utf-8, cp1252, shift_jis, utf-16, utf-32, ascii, koi8-
 
 CHARSETS = ['latin1', 'utf-8', 'cp1252', 'shift_jis', 'utf-16', 'utf-32', 'ascii', 'koi8-r']
 MODEL_CS = {'latin1': 'latin1', 'ascii': 'ascii', 'utf-8': 'utf8'}
-TEXTS = ['', 'A', 'hello world', 'é', 'caf\xe9 \xff', 'naïve Über', '€5', '日本語', 'Жук',
+TEXTS = ['\xef\xbb\xbfLa la la', '\xef\xbb\xbf', '', 'A', 'hello world', 'é', 'caf\xe9 \xff', 'naïve Über', '€5', '日本語', 'Жук',
          'snow☃man', '\U0001f3b5 music', '\x00\x7f', '\x80\x9f', 'a' * 130, 'é' * 70, '\udc80']
 
 
@@ -153,14 +153,14 @@ def _chunk(cs):
 # every text, whatever its bytes look like (round trip and file bytes only; the fault scenarios use CHARSETS)
 EXTRA_CHARSETS = ['utf-16-le', 'utf-16-be', 'utf-32-le', 'utf-32-be', 'utf-7', 'hz', 'iso2022_jp', 'cp037', 'cp500',
                   'euc_jp', 'gb2312', 'big5', 'cp437', 'mac_roman']
-EXTRA_TEXTS = ['Piano', 'あい', 'A+B~C', '漢字 kanji', 'x', 'Track 1 {~}', 'é', 'Ж']
+EXTRA_TEXTS = ['Piano', 'あい', 'A+B~C', '漢字 kanji', 'x', 'Track 1 {~}', 'é', 'Ж', '\ufeffLa', '\xef\xbb\xbfLa', 'La\ufeff']
 
 
 def gen(ck):
     rng = ck.rng
     cases = []
     for cs in EXTRA_CHARSETS:
-        for t in EXTRA_TEXTS + TEXTS[:12]:
+        for t in EXTRA_TEXTS + TEXTS[:14]:
             try:
                 t.encode(cs)
             except (UnicodeError, LookupError):
@@ -171,7 +171,7 @@ def gen(ck):
         for t in TEXTS:
             cases.append((cs, (t,), None))
         for _ in range(12 if ck.tier == 'quick' else 200):
-            texts = tuple(rng.choice(TEXTS[:11]) for _ in range(rng.randint(1, 4)))
+            texts = tuple(rng.choice(TEXTS[:13]) for _ in range(rng.randint(1, 4)))
             enc_ok = True
             try:
                 for t in texts:
